@@ -50,7 +50,9 @@ def _shift_num(a, gen):
 
 def project(th, gen, need_flag=True):
     """dict of arrays -> rows <<shank,row,col,x,y,adc,shift,ind,flag>>; [] if the dict is not a table"""
-    keys = ["shank", "row", "col", "x", "y", "adc", "sample_shift", "ind"] + (["flag"] if need_flag else [])
+    keys = ["shank", "row", "col", "x", "y", "adc", "sample_shift", "ind"]
+    need_flag = need_flag and th is not None and "flag" in th      # the draw flag is not one of the property's attributes
+    keys += ["flag"] if need_flag else []
     if th is None or any(k not in th for k in keys):
         return []
     n = {np.asarray(th[k]).size for k in keys}
